@@ -749,7 +749,7 @@ func (g *Gen) callAnchors(fr *Frame, st *State, name string, callee *ssa.Functio
 	}
 	for _, s := range con.Sets {
 		if s.Call == name {
-			g.ghostSet(fr, st, s, nil)
+			g.ghostSet(fr, st, s, calleeParamVars(callee, args))
 		}
 	}
 	for _, a := range con.Asserts {
@@ -768,6 +768,46 @@ func (g *Gen) callAnchors(fr *Frame, st *State, name string, callee *ssa.Functio
 		g.callSeq["callanchor:"+name+":"+a.Clause.Label]++
 		n := g.callSeq["callanchor:"+name+":"+a.Clause.Label]
 		g.oblige(st, "assert", fmt.Sprintf("%s/assert at call %s#%d/%s", g.fnName(), name, n, a.Clause.Label), goal, a.Clause, nil)
+	}
+}
+
+func calleeParamVars(callee *ssa.Function, args []Val) map[string]CV {
+	extra := map[string]CV{}
+	if callee != nil {
+		for i, p := range callee.Params {
+			if i < len(args) && args[i].T != "" {
+				extra[p.Name()] = CV{T: args[i].T, Ty: p.Type()}
+			}
+		}
+	}
+	return extra
+}
+
+// callAnchorsAfter: ghost updates attached to the return of a call ("set g = e after call NAME").
+func (g *Gen) callAnchorsAfter(fr *Frame, st *State, name string, callee *ssa.Function, args []Val, ret Val) {
+	con := g.anchorContract(fr)
+	if con == nil || g.specMode || name == "" {
+		return
+	}
+	for _, s := range con.Sets {
+		if s.AfterCall != name {
+			continue
+		}
+		extra := calleeParamVars(callee, args)
+		if callee != nil {
+			rs := callee.Signature.Results()
+			if rs.Len() == 1 && ret.T != "" {
+				extra["result"] = CV{T: ret.T, Ty: rs.At(0).Type()}
+				extra["result0"] = extra["result"]
+			} else if rs.Len() > 1 && len(ret.Tuple) == rs.Len() {
+				for i := range ret.Tuple {
+					if ret.Tuple[i].T != "" {
+						extra[fmt.Sprintf("result%d", i)] = CV{T: ret.Tuple[i].T, Ty: rs.At(i).Type()}
+					}
+				}
+			}
+		}
+		g.ghostSet(fr, st, s, extra)
 	}
 }
 
